@@ -201,6 +201,11 @@ pub fn judge_live(c: &crate::props::fid::FCase) -> Verdict {
         if ctx.cs != 0x33 || ctx.ss != 0x2b {
             bad!("reg:segment", "thread {tid}: cs {:#x} ss {:#x}", ctx.cs, ctx.ss);
         }
+        // every thread of this 64-bit target runs with null data-segment selectors, whatever FS/GS *base*
+        // it has (TLS; every third parked thread sets a GS base of its own with arch_prctl)
+        if (ctx.ds, ctx.es, ctx.fs, ctx.gs) != (0, 0, 0, 0) {
+            bad!("reg:segment", "thread {tid}: ds {:#x} es {:#x} fs {:#x} gs {:#x}, the thread holds null selectors", ctx.ds, ctx.es, ctx.fs, ctx.gs);
+        }
         let Some((regs, fx)) = o.planned_regs.get(&tid) else { continue };
         match kind {
             Some(K_PARKED) => {
@@ -299,6 +304,9 @@ pub fn judge_live(c: &crate::props::fid::FCase) -> Verdict {
         classes.push("spinner".into());
     }
     crate::fw::count("thread-contexts-compared", checked_regs);
+    if c.refuse_regsets % 4 != 0 {
+        classes.push(format!("regset-interface-refused:{}", ["", "gpr", "fp", "gpr+fp"][c.refuse_regsets as usize % 4]));
+    }
     let nt = threads.len() >= 2 && !classes.is_empty();
     Verdict::pass_c(if nt { Some(fp_json(c)) } else { None }, classes)
 }
@@ -472,10 +480,11 @@ pub fn run(ctx: &mut LaneCtx) {
         SubSpec {
             name: "live-threads",
             cases: (960, 30_000),
-            rule: "generated targets (main + 1..63 threads: parked with sentinel registers, spinners with a register/stack/app-memory counter triple, sleepers, null-SP helpers, a spinner whose stack pointer holds an odd value such as all ones, exiters cued at the threads-enumerated hook) dumped by the real writer; oracle = set of listed ids, per-register comparison with the sentinels, counter triple within one step; non-trivial = >=2 threads and a spinner, null-SP thread or vanished thread; distinct = hash of case",
-            strategy: (crate::props::fid::case_strategy(if ctx.tier == Tier::Quick { 20 } else { 64 }, 1), proptest::option::weighted(0.3, any::<u8>()))
-                .prop_map(|(mut c, odd)| {
+            rule: "generated targets (main + 1..63 threads: parked with sentinel registers, spinners with a register/stack/app-memory counter triple, sleepers, null-SP helpers, a spinner whose stack pointer holds an odd value such as all ones, exiters cued at the threads-enumerated hook; every third parked thread has a GS base of its own) dumped by the real writer - in a quarter of the cases on a thread to which the kernel refuses PTRACE_GETREGSET for the general-purpose and/or floating-point set (seccomp filter), so that PTRACE_GETREGS / PTRACE_GETFPREGS answer; oracle = set of listed ids, per-register comparison with the sentinels, counter triple within one step; non-trivial = >=2 threads and a spinner, null-SP thread or vanished thread; distinct = hash of case",
+            strategy: (crate::props::fid::case_strategy(if ctx.tier == Tier::Quick { 20 } else { 64 }, 1), proptest::option::weighted(0.3, any::<u8>()), prop_oneof![3 => Just(0u8), 1 => 1u8..4])
+                .prop_map(|(mut c, odd, refuse)| {
                     c.odd_sp = odd;
+                    c.refuse_regsets = refuse;
                     c
                 })
                 .boxed(),
